@@ -44,6 +44,7 @@ def run_history(cfg, ops):
     live = []
     increased = set()
     last_fill_tag = ['']
+    exact = [True]  # all order quantities so far have at most 10 significant decimal digits
 
     def feed():
         nonlocal seen
@@ -83,7 +84,11 @@ def run_history(cfg, ops):
             vios.append((f'C03:wallet-balance{tag}', f'after {what}: wallet {ex.wallet_balance!r} vs reference {float(model.wallet)!r}'))
         for s in syms:
             p = b.positions[s]
-            if not close_enough(fr(p.qty), model.q(s)):
+            if exact[0] and float(model.q(s)) != p.qty:
+                # every quantity so far was a short decimal: decimal-exact bookkeeping must reproduce the size exactly
+                # (in particular flat must be flat: a 1e-17 'dust' position is an open position with an entry price)
+                vios.append((f'C03:position-size-not-decimal-exact{tag}', f'after {what}: {s} qty {p.qty!r} vs reference {float(model.q(s))!r}'))
+            elif not close_enough(fr(p.qty), model.q(s)):
                 vios.append((f'C03:position-size{tag}', f'after {what}: {s} qty {p.qty!r} vs reference {float(model.q(s))!r}'))
             elif model.q(s) != 0:
                 if p.entry_price is None or not close_enough(fr(p.entry_price), model.entry[s]):
@@ -146,6 +151,8 @@ def run_history(cfg, ops):
                         qty = float(f'{qty:.6f}')
                 if qty <= 0:
                     continue
+                if len(repr(qty).replace('.', '').replace('-', '').strip('0')) > 10 or 'e' in repr(qty):
+                    exact[0] = False
                 what = f"{kind}-{side}-{typ}{'-reduce-only' if ro else ''}"
                 applied.append(list(op))
                 if kind == 'submit_cancel':
